@@ -1,40 +1,144 @@
 import FastorModel.Driver.Common
-import FastorModel.Model.Horizontal
-/- `hstep` command of the driver: the horizontal helpers of extintrin.h with the immediates read from the source (C16) -/
-namespace Fastor.Driver
-open Fastor Fastor.Horizontal
+import FastorModel.Generated.Simd_sse2
+import FastorModel.Generated.Simd_avx2
+import FastorModel.Generated.Simd_avx512
+import FastorModel.Generated.C16Spec_avx2
+import FastorModel.Generated.C16Spec_avx512
+/- `hstep` command of the driver (C16): the horizontal helpers of extintrin.h, EXECUTED from the definitions that
+   vlib/xlate_simd.py generates from the current source for the build configuration of the case.  The uninterpreted
+   floating-point operations are instantiated by integer arithmetic on the lane bit patterns (the harness uses
+   integer-valued lanes for which every association is exact), so the data movement of the generated code decides the result. -/
+namespace Fastor.Driver.C16H
+open Fastor Fastor.Simd Fastor.Driver
+
+/-- integer instance of the lane operations (two's complement) -/
+def intFO : FOps where
+  add32 := (· + ·)
+  sub32 := (· - ·)
+  mul32 := (· * ·)
+  div32 := fun a _ => a
+  min32 := smin32
+  max32 := smax32
+  sqrt32 := id
+  fma32 := fun a b c => a * b + c
+  add64 := (· + ·)
+  sub64 := (· - ·)
+  mul64 := (· * ·)
+  div64 := fun a _ => a
+  min64 := smin64
+  max64 := smax64
+  sqrt64 := id
+  fma64 := fun a b c => a * b + c
+
+private def reg32 (xs : Array Int) : Reg := fun l => BitVec.ofInt 32 (xs.getD l 0)
+private def reg64 (xs : Array Int) : Reg := of64 fun j => BitVec.ofInt 64 (xs.getD j 0)
+
+/-- result of helper `fn` under configuration `cfg` (`sse2`: Gen.sse2; `avx2`, `avx`, `sse42`: Gen.avx2; `avx512`: Gen.avx512) -/
+private def evalHelper (cfg fn : String) (xs : Array Int) : Option Int :=
+  let a32 := reg32 xs
+  let a64 := reg64 xs
+  let i32 (x : BitVec 32) : Option Int := some x.toInt
+  let i64 (x : BitVec 64) : Option Int := some x.toInt
+  match cfg with
+  | "sse2" =>
+    match fn with
+    | "hmax_ps" => i32 (Gen.sse2.mm_hmax_ps intFO a32) | "hmin_ps" => i32 (Gen.sse2.mm_hmin_ps intFO a32)
+    | "hmax_pd" => i64 (Gen.sse2.mm_hmax_pd intFO a64) | "hmin_pd" => i64 (Gen.sse2.mm_hmin_pd intFO a64)
+    | "sum_ps" => i32 (Gen.sse2.mm_sum_ps intFO a32) | "prod_ps" => i32 (Gen.sse2.mm_prod_ps intFO a32)
+    | "sum_pd" => i64 (Gen.sse2.mm_sum_pd intFO a64) | "prod_pd" => i64 (Gen.sse2.mm_prod_pd intFO a64)
+    | "sum_epi32" => i32 (Gen.sse2.mm_sum_epi32 a32) | "prod_epi32" => i32 (Gen.sse2.mm_prod_epi32 a32)
+    | _ => none
+  | "avx512" =>
+    match fn with
+    | "hmax_ps" => i32 (Gen.avx512.mm_hmax_ps intFO a32) | "hmin_ps" => i32 (Gen.avx512.mm_hmin_ps intFO a32)
+    | "hmax_pd" => i64 (Gen.avx512.mm_hmax_pd intFO a64) | "hmin_pd" => i64 (Gen.avx512.mm_hmin_pd intFO a64)
+    | "sum_ps" => i32 (Gen.avx512.mm_sum_ps intFO a32) | "prod_ps" => i32 (Gen.avx512.mm_prod_ps intFO a32)
+    | "sum_pd" => i64 (Gen.avx512.mm_sum_pd intFO a64) | "prod_pd" => i64 (Gen.avx512.mm_prod_pd intFO a64)
+    | "sum_epi32" => i32 (Gen.avx512.mm_sum_epi32 a32) | "prod_epi32" => i32 (Gen.avx512.mm_prod_epi32 a32)
+    | "hmax256_ps" => i32 (Gen.avx512.mm256_hmax_ps intFO a32) | "hmin256_ps" => i32 (Gen.avx512.mm256_hmin_ps intFO a32)
+    | "hmax256_pd" => i64 (Gen.avx512.mm256_hmax_pd intFO a64) | "hmin256_pd" => i64 (Gen.avx512.mm256_hmin_pd intFO a64)
+    | "sum256_ps" => i32 (Gen.avx512.mm256_sum_ps intFO a32) | "prod256_ps" => i32 (Gen.avx512.mm256_prod_ps intFO a32)
+    | "sum256_pd" => i64 (Gen.avx512.mm256_sum_pd intFO a64) | "prod256_pd" => i64 (Gen.avx512.mm256_prod_pd intFO a64)
+    | _ => none
+  | _ =>
+    match fn with
+    | "hmax_ps" => i32 (Gen.avx2.mm_hmax_ps intFO a32) | "hmin_ps" => i32 (Gen.avx2.mm_hmin_ps intFO a32)
+    | "hmax_pd" => i64 (Gen.avx2.mm_hmax_pd intFO a64) | "hmin_pd" => i64 (Gen.avx2.mm_hmin_pd intFO a64)
+    | "sum_ps" => i32 (Gen.avx2.mm_sum_ps intFO a32) | "prod_ps" => i32 (Gen.avx2.mm_prod_ps intFO a32)
+    | "sum_pd" => i64 (Gen.avx2.mm_sum_pd intFO a64) | "prod_pd" => i64 (Gen.avx2.mm_prod_pd intFO a64)
+    | "sum_epi32" => i32 (Gen.avx2.mm_sum_epi32 a32) | "prod_epi32" => i32 (Gen.avx2.mm_prod_epi32 a32)
+    | "hmax256_ps" => i32 (Gen.avx2.mm256_hmax_ps intFO a32) | "hmin256_ps" => i32 (Gen.avx2.mm256_hmin_ps intFO a32)
+    | "hmax256_pd" => i64 (Gen.avx2.mm256_hmax_pd intFO a64) | "hmin256_pd" => i64 (Gen.avx2.mm256_hmin_pd intFO a64)
+    | "sum256_ps" => i32 (Gen.avx2.mm256_sum_ps intFO a32) | "prod256_ps" => i32 (Gen.avx2.mm256_prod_ps intFO a32)
+    | "sum256_pd" => i64 (Gen.avx2.mm256_sum_pd intFO a64) | "prod256_pd" => i64 (Gen.avx2.mm256_prod_pd intFO a64)
+    | _ => none
 
 def runHstep (kv : List (String × String)) : String := Id.run do
   let some cfg := getS kv "cfg" | return "bad-op"
   let some fn := getS kv "fn" | return "bad-op"
   let some xs := getS kv "x" | return "bad-op"
-  let imms := ((getS kv "imm").getD "").splitOn "," |>.filterMap String.toNat?
   let data := ((xs.splitOn ",").filterMap String.toInt?).toArray
-  let a : Reg Int := fun l => data.getD l 0
-  let i (k : Nat) : Nat := imms.getD k 0
-  let sse3 := cfg != "sse2" && cfg != "scalar"
-  let add : Int → Int → Int := (· + ·)
-  let mul : Int → Int → Int := (· * ·)
-  let r? : Option Int := match fn with
-    | "hmax_ps" => some (hPs max (i 0) (i 1) a)
-    | "hmin_ps" => some (hPs min (i 0) (i 1) a)
-    | "hmax_pd" => some (hPd max (i 0) a)
-    | "hmin_pd" => some (hPd min (i 0) a)
-    | "hmax256_ps" => some (h256Ps max (i 0) (i 1) (i 2) (i 3) a)
-    | "hmin256_ps" => some (h256Ps min (i 0) (i 1) (i 2) (i 3) a)
-    | "hmax256_pd" => some (h256Pd max (i 0) (i 1) (i 2) a)
-    | "hmin256_pd" => some (h256Pd min (i 0) (i 1) (i 2) a)
-    | "sum_ps" => some (hsumPs add sse3 (i 0) a)
-    | "prod_ps" => some (hsumPs mul sse3 (i 0) a)
-    | "sum_pd" => some (hsumPd add a)
-    | "prod_pd" => some (hsumPd mul a)
-    | "sum256_ps" => some (hsum256Ps add sse3 (i 0) (i 1) a)
-    | "prod256_ps" => some (hprod256Ps mul sse3 (i 0) (i 1) a)
-    | "sum256_pd" => some (hsum256Pd add (i 0) (i 1) a)
-    | "prod256_pd" => some (hprod256Pd mul (i 0) (i 1) a)
-    | _ => none
-  match r? with
-  | some r => return s!"route=hstep STRUCT=ok IMMS=theorem R={r}"
+  match evalHelper cfg fn data with
+  | some r => return s!"route=hstep R={r}"
   | none => return "bad-op"
 
-end Fastor.Driver
+/-- `hspec`: the intrinsic specialisations of the reduction back ends, executed from Generated/C16Spec_<isa>.lean
+    (square root = identity, so `_norm` yields the radicand) -/
+private def evalSpec (cfg fn : String) (xs ys : Array Int) : Option Int :=
+  let fo : FOps := { intFO with sqrt32 := id, sqrt64 := id }
+  -- memory behind the pointers: 32-bit words (a double element is two words)
+  let m32 : Reg := reg32 xs
+  let m64 : Reg := reg64 xs
+  let n32 : Reg := reg32 ys
+  let n64 : Reg := reg64 ys
+  match cfg with
+  | "avx512" =>
+    match fn with
+    | "norm_float_4" => some (Gen.avx512.spec.norm_float_4 fo m32).toInt
+    | "norm_float_9" => some (Gen.avx512.spec.norm_float_9 fo m32).toInt
+    | "trace_float_2x2" => some (Gen.avx512.spec.trace_float_2x2 fo m32).toInt
+    | "trace_float_3x3" => some (Gen.avx512.spec.trace_float_3x3 fo m32).toInt
+    | "det_float_2" => some (Gen.avx512.spec.det_float_2 fo m32).toInt
+    | "det_float_3" => some (Gen.avx512.spec.det_float_3 fo m32).toInt
+    | "norm_double_4" => some (Gen.avx512.spec.norm_double_4 fo m64).toInt
+    | "norm_double_9" => some (Gen.avx512.spec.norm_double_9 fo m64).toInt
+    | "trace_double_2x2" => some (Gen.avx512.spec.trace_double_2x2 fo m64).toInt
+    | "trace_double_3x3" => some (Gen.avx512.spec.trace_double_3x3 fo m64).toInt
+    | "det_double_2" => some (Gen.avx512.spec.det_double_2 fo m64).toInt
+    | "det_double_3" => some (Gen.avx512.spec.det_double_3 fo m64).toInt
+    | "doublecontract_float_2x2" => some (Gen.avx512.spec.doublecontract_float_2x2 fo m32 n32).toInt
+    | "doublecontract_float_3x3" => some (Gen.avx512.spec.doublecontract_float_3x3 fo m32 n32).toInt
+    | "doublecontract_double_2x2" => some (Gen.avx512.spec.doublecontract_double_2x2 fo m64 n64).toInt
+    | "doublecontract_double_3x3" => some (Gen.avx512.spec.doublecontract_double_3x3 fo m64 n64).toInt
+    | _ => none
+  | _ =>
+    match fn with
+    | "norm_float_4" => some (Gen.avx2.spec.norm_float_4 fo m32).toInt
+    | "norm_float_9" => some (Gen.avx2.spec.norm_float_9 fo m32).toInt
+    | "trace_float_2x2" => some (Gen.avx2.spec.trace_float_2x2 fo m32).toInt
+    | "trace_float_3x3" => some (Gen.avx2.spec.trace_float_3x3 fo m32).toInt
+    | "det_float_2" => some (Gen.avx2.spec.det_float_2 fo m32).toInt
+    | "det_float_3" => some (Gen.avx2.spec.det_float_3 fo m32).toInt
+    | "norm_double_4" => some (Gen.avx2.spec.norm_double_4 fo m64).toInt
+    | "norm_double_9" => some (Gen.avx2.spec.norm_double_9 fo m64).toInt
+    | "trace_double_2x2" => some (Gen.avx2.spec.trace_double_2x2 fo m64).toInt
+    | "trace_double_3x3" => some (Gen.avx2.spec.trace_double_3x3 fo m64).toInt
+    | "det_double_2" => some (Gen.avx2.spec.det_double_2 fo m64).toInt
+    | "det_double_3" => some (Gen.avx2.spec.det_double_3 fo m64).toInt
+    | "doublecontract_float_2x2" => some (Gen.avx2.spec.doublecontract_float_2x2 fo m32 n32).toInt
+    | "doublecontract_float_3x3" => some (Gen.avx2.spec.doublecontract_float_3x3 fo m32 n32).toInt
+    | "doublecontract_double_2x2" => some (Gen.avx2.spec.doublecontract_double_2x2 fo m64 n64).toInt
+    | "doublecontract_double_3x3" => some (Gen.avx2.spec.doublecontract_double_3x3 fo m64 n64).toInt
+    | _ => none
+
+def runHspec (kv : List (String × String)) : String := Id.run do
+  let some cfg := getS kv "cfg" | return "bad-op"
+  let some fn := getS kv "fn" | return "bad-op"
+  let some xs := getS kv "x" | return "bad-op"
+  let data := ((xs.splitOn ",").filterMap String.toInt?).toArray
+  let data2 := ((((getS kv "y").getD "").splitOn ",").filterMap String.toInt?).toArray
+  match evalSpec cfg fn data data2 with
+  | some r => return s!"route=hspec R={r}"
+  | none => return "bad-op"
+
+end Fastor.Driver.C16H
